@@ -92,7 +92,7 @@ def _s(l):
     return "".join(map(chr, l))
 
 
-def decode_model(m):
+def decode_model(m, unescape=True):
     """18003's answer -> the recorder's shape; html.unescape / the non-ASCII part of lower() applied here."""
     items = []
     for off, pos, span, evs in m[0]:
@@ -103,7 +103,7 @@ def decode_model(m):
                 attrs = []
                 for a, v in e[2]:
                     v = _s(v[0]) if v else None
-                    if v:
+                    if v and unescape:
                         v = html.unescape(v)
                     attrs.append([_s(a).lower(), v])
                 out.append([k, _s(e[1]).lower(), attrs])
